@@ -22,6 +22,9 @@ Proof.
   intros [E|I]; [subst; intro; apply H2, in_or_app; auto | apply IH; auto].
 Qed.
 
+Lemma NoDup_app_r {A} (l1 l2 : list A) : NoDup (l1 ++ l2) -> NoDup l2.
+Proof. induction l1 as [|a l1 IH]; cbn; auto. intros H. inversion H; auto. Qed.
+
 Lemma Forall_tl {A} (P : A -> Prop) l : Forall P l -> Forall P (tl l).
 Proof. intros F. destruct l; cbn; auto. inversion F; auto. Qed.
 
@@ -291,9 +294,337 @@ Proof.
   destruct z as [|z0 zt]; [cbn in Hz; lia|].
   pose proof Pz1 as Pz1'. apply Forall_cons_iff in Pz1' as (Pz0 & Pzt).
   pose proof ND as ND0. apply NoDup_cons_iff in ND0 as (Nz0 & NDt).
-  cbn [nth].
-  eapply oks_bind with (P := fun _ s' => step s1 s' [z0] /\ defd s' z0 /\ next s' = next s1).
-  { destruct (Nat.eqb (length x2) 1); (apply emit_s; [auto|apply defd_nth; auto|apply defd_nth; auto|exact Pz0]). }
-Abort.
+  cbn [nth tl].
+  destruct (Nat.eqb (length x2) 1) eqn:E1.
+  - eapply oks_bind; [apply emit_s; [auto|apply defd_nth; auto|apply defd_nth; auto|exact Pz0]|].
+    intros _ s2 W2 (S2 & D2 & _). cbv beta.
+    eapply oks_conseq; [apply zero_tail_s; auto|].
+    cbv beta. intros z' s3 W3 (S3 & Lz' & Ef & Fk). split; [|split; auto].
+    + eapply step_weaken; [eapply step_trans; [exact S1|eapply step_trans; [exact S2|exact S3]]|].
+      cbn. intros w [E|[]]; subst; cbn; auto.
+    + rewrite <- (firstn_skipn 1 z'). apply Forall_app; split; auto. rewrite Ef. cbn.
+      constructor; [sd|constructor].
+  - apply Nat.eqb_neq in E1.
+    remember (length y2 - 1)%nat as j eqn:Ej.
+    destruct j as [|j']; [cbn [length] in *; lia|].
+    replace (S j' - 1)%nat with j' by lia. cbn [skipn].
+    eapply oks_bind; [apply emit_s; [auto|apply defd_nth; auto|apply defd_nth; auto|exact Pz0]|].
+    intros _ s2 W2 (S2 & D2 & _). cbv beta.
+    eapply oks_bind; [apply am_row0_s; [auto| |]|].
+    { apply Forall_tl. eapply Forall_defd_step; eauto. }
+    { apply defd_nth; auto. eapply Forall_defd_step; eauto. }
+    intros sums s3 W3 (S3 & F3 & _). cbv beta.
+    assert (Fx3 : Forall (defd s3) x2) by (eapply Forall_impl; [|exact Fx2]; intros; sd).
+    assert (Fy3 : Forall (defd s3) y2) by (eapply Forall_impl; [|exact Fy2]; intros; sd).
+    assert (Pzt3 : Forall (pend s3) zt).
+    { eapply (Forall_pend_step ninp); [exact S3| |auto].
+      eapply (Forall_pend_step ninp); [exact S2|exact Pzt|]. intros w Hin [E|[]]; subst; auto. }
+    assert (Lys : length (firstn j' (tl y2)) = j') by (rewrite firstn_length, length_tl; lia).
+    eapply oks_bind; [apply am_layers_s; [auto|exact Fx3| | |exact Pzt3|exact NDt| |exact F3]|].
+    { cbn [length] in *; lia. }
+    { apply firstn_Forall', Forall_tl; auto. }
+    { rewrite Lys. cbn [length] in *. lia. }
+    rewrite Lys. intros sums' s4 W4 (S4 & F4 & F4'). cbv beta.
+    assert (Pk4 : Forall (pend s4) (skipn j' zt)).
+    { apply Forall_forall. intros w Hin. eapply step_pend; [exact S4| |].
+      - rewrite Forall_forall in Pzt3. apply Pzt3. eapply skipn_In'; eauto.
+      - intros Hf. revert Hin. eapply NoDup_app_disj; [|exact Hf]. rewrite firstn_skipn. exact NDt. }
+    eapply oks_bind; [apply am_final_s; [auto| | | exact F4' | exact Pk4 | | left; reflexivity | ]|].
+    { eapply Forall_defd_step; eauto. }
+    { apply defd_nth; auto. eapply Forall_defd_step; eauto. }
+    { rewrite <- (firstn_skipn j' zt) in NDt. eapply NoDup_app_r; eauto. }
+    { intro; subst x2; cbn [length] in *; lia. }
+    intros _ s5 W5 (S5 & F5). cbv beta.
+    eapply oks_conseq; [apply zero_tail_s; auto|].
+    cbv beta. intros z' s6 W6 (S6 & Lz' & Ef & Fk).
+    assert (EK : firstn (S j' + length x2 + 1) (z0 :: zt) =
+                 z0 :: firstn j' zt ++ firstn (length x2 + 1) (skipn j' zt)).
+    { replace (S j' + length x2 + 1)%nat with (S (j' + (length x2 + 1))) by lia.
+      cbn [firstn]. rewrite firstn_add_skipn. reflexivity. }
+    split; [|split; auto].
+    + eapply step_weaken;
+        [eapply step_trans; [exact S1|eapply step_trans; [exact S2|eapply step_trans; [exact S3|
+         eapply step_trans; [exact S4|eapply step_trans; [exact S5|exact S6]]]]]|].
+      cbn [app]. rewrite app_nil_r. intros w [E|Hin]; [subst; cbn; auto|].
+      right. apply in_app_or in Hin. destruct Hin as [Hin|Hin].
+      * eapply firstn_In'; eauto.
+      * eapply skipn_In'. eapply firstn_In'; eauto.
+    + rewrite <- (firstn_skipn (S j' + length x2 + 1) z'). apply Forall_app; split; auto.
+      rewrite Ef, EK. constructor; [sd|]. apply Forall_app; split.
+      * eapply Forall_impl; [|exact F4]. intros; sd.
+      * eapply Forall_defd_step; eauto.
+Qed.
 
 End A.
+
+(* ---------- the evaluated array multiplier ----------
+   Harness layout: x = wires 0..xw-1, y = the next yw wires, the zw destination
+   wires follow the inputs.  For every target, all widths and every initial
+   assignment e0: the emitted gate list is single-assignment and
+   defined-before-use, and evaluating it yields the product modulo 2^zw. *)
+Theorem array_multiplier_eval (tg : bool) (xw yw zw : nat) (e0 : env) :
+  (1 <= Nat.max xw yw)%nat -> (1 <= zw)%nat ->
+  let x := wrange 0 xw in
+  let y := wrange (N.of_nat xw) yw in
+  let ninp := N.of_nat xw + N.of_nat yw in
+  let z := wrange ninp zw in
+  exists z' s', array_multiplier x y z (st0 (ninp + N.of_nat zw) tg) = (z', s') /\
+    wfc_b ninp (gates s') = true /\ dbu ninp (gates s') /\ length z' = zw /\
+    valN (eval_rev (gates s') e0) z' = (valN e0 x * valN e0 y) mod 2 ^ N.of_nat zw.
+Proof.
+  intros Hm Hz. cbv zeta.
+  destruct (layout_facts xw yw zw Hm) as (Ix & Iy & Lx & Ly & Lz & Hn & Pz & ND & W0).
+  set (x := wrange 0 xw) in *. set (y := wrange (N.of_nat xw) yw) in *.
+  set (ninp := N.of_nat xw + N.of_nat yw) in *. set (z := wrange ninp zw) in *.
+  assert (Hz' : (1 <= length z)%nat) by lia.
+  assert (Hm' : (1 <= Nat.max (length x) (length y))%nat) by lia.
+  pose proof (okm_array_multiplier_gen tg x y z Hm' Hz') as Sem.
+  pose proof (array_multiplier_s ninp (st0 (ninp + N.of_nat zw) tg) x y z (W0 tg)
+                (Forall_defd_inputs _ _ _ Ix) (Forall_defd_inputs _ _ _ Iy) (Pz tg) ND Hz' Hm') as Str.
+  destruct (run_st0 ninp _ tg _ _ _ Sem Str e0) as (z' & s' & E & C & D & _ & (Lz' & P) & I).
+  exists z', s'. split; [exact E|]. split; [exact C|]. split; [exact D|]. split; [lia|].
+  rewrite P, Lz.
+  rewrite (valN_inputs _ e0 ninp x I Ix), (valN_inputs _ e0 ninp y I Iy). reflexivity.
+Qed.
+
+(* ---------- ShiftLeft, Karatsuba, NewMultiplier (Yao target) ---------- *)
+Lemma Forall_skipn' {A} (P : A -> Prop) k (l : list A) : Forall P l -> Forall P (skipn k l).
+Proof.
+  intros F. apply Forall_forall. intros a H. rewrite Forall_forall in F. eapply F, skipn_In'; eauto.
+Qed.
+
+Section K.
+Variable ninp : N.
+Notation defd := (defd ninp). Notation pend := (pend ninp). Notation wfst := (wfst ninp).
+Notation step := (step ninp). Notation oks := (@oks ninp _).
+
+Lemma shift_left_s s w size count : wfst s -> Forall (defd s) w ->
+  oks (shift_left w size count) s
+      (fun r s' => step s s' [] /\ Forall (defd s') r /\ length r = size).
+Proof.
+  intros W F. unfold shift_left.
+  assert (B : forall z s', defd s' z -> Forall (defd s') w ->
+    let r := firstn size (repeat z count ++ firstn (size - count) w ++
+                          repeat z (size - count - length (firstn (size - count) w))) in
+    Forall (defd s') r /\ length r = size).
+  { intros z s' Dz Fw. cbv zeta. split.
+    - apply firstn_Forall'. apply Forall_app; split; [apply Forall_defd_repeat; auto|].
+      apply Forall_app; split; [apply firstn_Forall'; auto|apply Forall_defd_repeat; auto].
+    - rewrite firstn_length, !app_length, !repeat_length.
+      set (lb := length (firstn (size - count) w)). lia. }
+  destruct (Nat.ltb 0 count || Nat.ltb (count + length w) size).
+  - sbind zero_s. intros z s1 W1 (S1 & Dz). cbv beta. apply oks_ret; auto. split; auto.
+    apply B; auto. eapply Forall_defd_step; eauto.
+  - apply oks_ret; auto. split; [apply step_refl|]. apply B; auto. apply defd_zero_const; auto.
+Qed.
+
+(* fresh destination vector, immediately consumed by a builder: seen from the
+   starting state, only fresh wires were written *)
+Lemma fresh_dest_s {Y} k (Bd : list wire -> M (list wire)) (K : list wire -> M Y) s (Q : Y -> st -> Prop) :
+  wfst s ->
+  (forall z s1, wfst s1 -> step s s1 [] -> Forall (pend s1) z -> NoDup z -> length z = k ->
+     oks (Bd z) s1 (fun z' s' => step s1 s' z /\ Forall (defd s') z' /\ length z' = length z)) ->
+  (forall z' s', wfst s' -> step s s' [] -> Forall (defd s') z' -> length z' = k -> oks (K z') s' Q) ->
+  oks (bind (fresh_n k) (fun z => bind (Bd z) K)) s Q.
+Proof.
+  intros W HB HK. sbind fresh_n_s. intros z s1 W1 (S1 & ND & Lk & Pw). cbv beta.
+  eapply oks_bind; [apply HB; auto|].
+  { apply Forall_forall. intros w Hin. apply Pw; auto. }
+  intros z' s2 W2 (S2 & F & L). cbv beta. apply HK; auto; [|congruence].
+  split; [sgn|]. split; [intros v D; sd|]. intros v P N.
+  eapply step_pend; [exact S2| eapply step_pend; [exact S1|exact P|auto] | ].
+  intros Hin. destruct (Pw _ Hin) as (_ & Hge). pose proof (pend_next _ _ _ P). unfold wire in *. lia.
+Qed.
+
+Ltac fwd S :=
+  match type of S with
+  | StructProof.step _ ?sA ?sB _ =>
+      repeat match goal with
+      | H : Forall (StructProof.defd _ sA) ?l |- _ =>
+          lazymatch goal with
+          | _ : Forall (StructProof.defd _ sB) l |- _ => fail
+          | _ => pose proof (Forall_defd_step _ _ _ _ _ S H)
+          end
+      end
+  end.
+
+Lemma karatsuba_s : forall fuel limit a b r s,
+  gmw s = false -> (3 <= limit)%nat ->
+  (S (Nat.max (length a) (length b)) <= fuel)%nat ->
+  wfst s -> Forall (defd s) a -> Forall (defd s) b -> Forall (pend s) r -> NoDup r ->
+  (1 <= length r)%nat -> (1 <= Nat.max (length a) (length b))%nat ->
+  oks (karatsuba fuel limit a b r) s
+      (fun r' s' => step s s' r /\ Forall (defd s') r' /\ length r' = length r).
+Proof.
+  induction fuel as [|f IH]; intros limit a b r s G HL HF W Fa Fb Pr ND Hr Hm; [lia|].
+  cbn [karatsuba].
+  sbind zero_pad_s. intros [a' b'] s1 W1 (S1 & Fa' & Fb' & La & Lb). cbn [fst snd] in *.
+  cbv beta iota zeta.
+  remember (firstn (length r) a') as a2 eqn:Ea2.
+  remember (firstn (length r) b') as b2 eqn:Eb2.
+  assert (Lb2 : length b2 = length a2) by (subst a2 b2; rewrite !firstn_length; lia).
+  assert (La2 : length a2 = Nat.min (length r) (Nat.max (length a) (length b)))
+    by (subst a2; rewrite firstn_length; lia).
+  assert (Fa2 : Forall (defd s1) a2) by (subst a2; apply firstn_Forall'; auto).
+  assert (Fb2 : Forall (defd s1) b2) by (subst b2; apply firstn_Forall'; auto).
+  clear Ea2 Eb2.
+  assert (G1 : gmw s1 = false) by (rewrite (step_gmw _ _ _ _ S1); auto).
+  assert (Pr1 : Forall (pend s1) r) by (eapply (Forall_pend_step ninp); eauto).
+  remember (length a2) as n eqn:En.
+  destruct (Nat.leb n limit) eqn:EL.
+  - eapply oks_conseq; [apply array_multiplier_s; auto; lia|].
+    cbv beta. intros z' s2 W2 (S2 & F2 & L2). split; auto.
+    exact (step_trans _ _ _ _ [] r S1 S2).
+  - apply Nat.leb_gt in EL.
+    pose proof (Nat.div_mod n 2 ltac:(lia)) as DM. pose proof (Nat.mod_upper_bound n 2 ltac:(lia)) as MB.
+    remember (n / 2)%nat as mid eqn:Emid.
+    remember (firstn mid a2) as aLow eqn:EaL. remember (skipn mid a2) as aHigh eqn:EaH.
+    remember (firstn mid b2) as bLow eqn:EbL. remember (skipn mid b2) as bHigh eqn:EbH.
+    assert (LaL : length aLow = mid) by (subst aLow; rewrite firstn_length; lia).
+    assert (LbL : length bLow = mid) by (subst bLow; rewrite firstn_length; lia).
+    assert (LaH : length aHigh = (n - mid)%nat) by (subst aHigh; rewrite skipn_length; lia).
+    assert (LbH : length bHigh = (n - mid)%nat) by (subst bHigh; rewrite skipn_length; lia).
+    assert (FaL : Forall (defd s1) aLow) by (subst aLow; apply firstn_Forall'; auto).
+    assert (FbL : Forall (defd s1) bLow) by (subst bLow; apply firstn_Forall'; auto).
+    assert (FaH : Forall (defd s1) aHigh) by (subst aHigh; apply Forall_skipn'; auto).
+    assert (FbH : Forall (defd s1) bHigh) by (subst bHigh; apply Forall_skipn'; auto).
+    clear EaL EaH EbL EbH Fa2 Fb2.
+    (* z0 = aLow * bLow *)
+    eapply fresh_dest_s; [exact W1| |].
+    { intros z sA WA SA PA NA LA. fwd SA.
+      apply IH; auto; try lia. rewrite (step_gmw _ _ _ _ SA); auto. }
+    intros z0 s2 W2 S2 Fz0 Lz0. cbv beta. fwd S2.
+    assert (G2 : gmw s2 = false) by (rewrite (step_gmw _ _ _ _ S2); auto).
+    (* aSum, bSum *)
+    eapply fresh_dest_s; [exact W2| |].
+    { intros z sA WA SA PA NA LA. fwd SA.
+      apply new_adder_yao_s; auto; try lia. rewrite (step_gmw _ _ _ _ SA); auto. }
+    intros aSum s3 W3 S3 FaS LaS. cbv beta. fwd S3.
+    assert (G3 : gmw s3 = false) by (rewrite (step_gmw _ _ _ _ S3); auto).
+    eapply fresh_dest_s; [exact W3| |].
+    { intros z sA WA SA PA NA LA. fwd SA.
+      apply new_adder_yao_s; auto; try lia. rewrite (step_gmw _ _ _ _ SA); auto. }
+    intros bSum s4 W4 S4 FbS LbS. cbv beta. fwd S4.
+    assert (G4 : gmw s4 = false) by (rewrite (step_gmw _ _ _ _ S4); auto).
+    (* z1 = aSum * bSum *)
+    eapply fresh_dest_s; [exact W4| |].
+    { intros z sA WA SA PA NA LA. fwd SA.
+      apply IH; auto; try lia. rewrite (step_gmw _ _ _ _ SA); auto. }
+    intros z1 s5 W5 S5 Fz1 Lz1. cbv beta. fwd S5.
+    assert (G5 : gmw s5 = false) by (rewrite (step_gmw _ _ _ _ S5); auto).
+    (* z2 = aHigh * bHigh *)
+    eapply fresh_dest_s; [exact W5| |].
+    { intros z sA WA SA PA NA LA. fwd SA.
+      apply IH; auto; try lia. rewrite (step_gmw _ _ _ _ SA); auto. }
+    intros z2 s6 W6 S6 Fz2 Lz2. cbv beta. fwd S6.
+    assert (G6 : gmw s6 = false) by (rewrite (step_gmw _ _ _ _ S6); auto).
+    (* sub1 = z1 - z2, sub2 = sub1 - z0 *)
+    eapply fresh_dest_s; [exact W6| |].
+    { intros z sA WA SA PA NA LA. fwd SA.
+      apply new_subtractor_yao_s; auto; try lia. rewrite (step_gmw _ _ _ _ SA); auto. }
+    intros sub1 s7 W7 S7 Fs1 Ls1. cbv beta. fwd S7.
+    assert (G7 : gmw s7 = false) by (rewrite (step_gmw _ _ _ _ S7); auto).
+    eapply fresh_dest_s; [exact W7| |].
+    { intros z sA WA SA PA NA LA. fwd SA.
+      apply new_subtractor_yao_s; auto; try lia. rewrite (step_gmw _ _ _ _ SA); auto. }
+    intros sub2 s8 W8 S8 Fs2 Ls2. cbv beta. fwd S8.
+    assert (G8 : gmw s8 = false) by (rewrite (step_gmw _ _ _ _ S8); auto).
+    (* shifts *)
+    eapply oks_bind; [apply shift_left_s; [exact W8|eassumption]|].
+    intros shift1 s9 W9 (S9 & Fh1 & Lh1). cbv beta. fwd S9.
+    eapply oks_bind; [apply shift_left_s; [exact W9|eassumption]|].
+    intros shift2 s10 W10 (S10 & Fh2 & Lh2). cbv beta. fwd S10.
+    assert (G10 : gmw s10 = false)
+      by (rewrite (step_gmw _ _ _ _ S10), (step_gmw _ _ _ _ S9); auto).
+    (* add1 = shift1 + shift2, r = add1 + z0 *)
+    eapply fresh_dest_s; [exact W10| |].
+    { intros z sA WA SA PA NA LA. fwd SA.
+      apply new_adder_yao_s; auto; try lia. rewrite (step_gmw _ _ _ _ SA); auto. }
+    intros add1 s11 W11 S11 Fd1 Ld1. cbv beta. fwd S11.
+    assert (G11 : gmw s11 = false) by (rewrite (step_gmw _ _ _ _ S11); auto).
+    assert (ST : step s s11 []).
+    { exact (step_trans _ _ _ _ [] [] S1 (step_trans _ _ _ _ [] [] S2 (step_trans _ _ _ _ [] [] S3
+             (step_trans _ _ _ _ [] [] S4 (step_trans _ _ _ _ [] [] S5 (step_trans _ _ _ _ [] [] S6
+             (step_trans _ _ _ _ [] [] S7 (step_trans _ _ _ _ [] [] S8 (step_trans _ _ _ _ [] [] S9
+             (step_trans _ _ _ _ [] [] S10 S11)))))))))). }
+    assert (Pr11 : Forall (pend s11) r) by (eapply (Forall_pend_step ninp); eauto).
+    eapply oks_conseq; [apply new_adder_yao_s; auto; lia|].
+    cbv beta. intros r' s12 W12 (S12 & F12 & L12). split; auto.
+    exact (step_trans _ _ _ _ [] r ST S12).
+Qed.
+
+Lemma new_multiplier_yao_s tbl thr s x y z :
+  (forall k v, lookup_threshold tbl k = Some v -> (3 <= v)%nat) ->
+  gmw s = false ->
+  wfst s -> Forall (defd s) x -> Forall (defd s) y -> Forall (pend s) z -> NoDup z ->
+  (1 <= length z)%nat -> (1 <= Nat.max (length x) (length y))%nat ->
+  oks (new_multiplier tbl thr x y z) s
+      (fun z' s' => step s s' z /\ Forall (defd s') z' /\ length z' = length z).
+Proof.
+  intros HT G W Fx Fy Pz ND Hz Hm.
+  assert (HL : (3 <= (if Nat.ltb thr 8
+                      then match lookup_threshold tbl (length x) with Some v => v | None => 21%nat end
+                      else thr))%nat).
+  { destruct (Nat.ltb thr 8) eqn:E.
+    - destruct (lookup_threshold tbl (length x)) eqn:EL; [eapply HT; eauto|lia].
+    - apply Nat.ltb_ge in E. lia. }
+  destruct (karatsuba_s _ _ x y z s G HL (le_n _) W Fx Fy Pz ND Hz Hm) as (a & s' & E & W' & Q).
+  exists a, s'. split; [|auto]. unfold new_multiplier, bind, target_gmw. rewrite G. exact E.
+Qed.
+
+End K.
+
+(* ---------- the evaluated Karatsuba multiplier / NewMultiplier (Yao target) ---------- *)
+Theorem karatsuba_eval (limit xw yw zw : nat) (e0 : env) :
+  (3 <= limit)%nat -> (1 <= Nat.max xw yw)%nat -> (1 <= zw)%nat ->
+  let x := wrange 0 xw in
+  let y := wrange (N.of_nat xw) yw in
+  let ninp := N.of_nat xw + N.of_nat yw in
+  let z := wrange ninp zw in
+  exists z' s', karatsuba (S (Nat.max xw yw)) limit x y z (st0 (ninp + N.of_nat zw) false) = (z', s') /\
+    wfc_b ninp (gates s') = true /\ dbu ninp (gates s') /\ length z' = zw /\
+    valN (eval_rev (gates s') e0) z' = (valN e0 x * valN e0 y) mod 2 ^ N.of_nat zw.
+Proof.
+  intros HL Hm Hz. cbv zeta.
+  destruct (layout_facts xw yw zw Hm) as (Ix & Iy & Lx & Ly & Lz & Hn & Pz & ND & W0).
+  set (x := wrange 0 xw) in *. set (y := wrange (N.of_nat xw) yw) in *.
+  set (ninp := N.of_nat xw + N.of_nat yw) in *. set (z := wrange ninp zw) in *.
+  assert (Hz' : (1 <= length z)%nat) by lia.
+  assert (Hm' : (1 <= Nat.max (length x) (length y))%nat) by lia.
+  assert (HF : (S (Nat.max (length x) (length y)) <= S (Nat.max xw yw))%nat) by lia.
+  pose proof (okm_karatsuba (S (Nat.max xw yw)) limit x y z HL HF Hm' Hz') as Sem.
+  pose proof (karatsuba_s ninp (S (Nat.max xw yw)) limit x y z (st0 (ninp + N.of_nat zw) false)
+                eq_refl HL HF (W0 false)
+                (Forall_defd_inputs _ _ _ Ix) (Forall_defd_inputs _ _ _ Iy) (Pz false) ND Hz' Hm') as Str.
+  destruct (run_st0 ninp _ false _ _ _ Sem Str e0) as (z' & s' & E & C & D & _ & (Lz' & P) & I).
+  exists z', s'. split; [exact E|]. split; [exact C|]. split; [exact D|]. split; [lia|].
+  rewrite P, Lz.
+  rewrite (valN_inputs _ e0 ninp x I Ix), (valN_inputs _ e0 ninp y I Iy). reflexivity.
+Qed.
+
+Theorem new_multiplier_yao_eval (thr xw yw zw : nat) (e0 : env) :
+  (1 <= Nat.max xw yw)%nat -> (1 <= zw)%nat ->
+  let x := wrange 0 xw in
+  let y := wrange (N.of_nat xw) yw in
+  let ninp := N.of_nat xw + N.of_nat yw in
+  let z := wrange ninp zw in
+  exists z' s', new_multiplier Mpc.Gen.Thresholds.multiplierArrayTresholds thr x y z
+                  (st0 (ninp + N.of_nat zw) false) = (z', s') /\
+    wfc_b ninp (gates s') = true /\ dbu ninp (gates s') /\ length z' = zw /\
+    valN (eval_rev (gates s') e0) z' = (valN e0 x * valN e0 y) mod 2 ^ N.of_nat zw.
+Proof.
+  intros Hm Hz. cbv zeta.
+  destruct (layout_facts xw yw zw Hm) as (Ix & Iy & Lx & Ly & Lz & Hn & Pz & ND & W0).
+  set (x := wrange 0 xw) in *. set (y := wrange (N.of_nat xw) yw) in *.
+  set (ninp := N.of_nat xw + N.of_nat yw) in *. set (z := wrange ninp zw) in *.
+  assert (Hz' : (1 <= length z)%nat) by lia.
+  assert (Hm' : (1 <= Nat.max (length x) (length y))%nat) by lia.
+  pose proof (okm_new_multiplier_yao_shipped thr x y z Hm' Hz') as Sem.
+  pose proof (new_multiplier_yao_s ninp Mpc.Gen.Thresholds.multiplierArrayTresholds thr
+                (st0 (ninp + N.of_nat zw) false) x y z thresholds_ge_3 eq_refl (W0 false)
+                (Forall_defd_inputs _ _ _ Ix) (Forall_defd_inputs _ _ _ Iy) (Pz false) ND Hz' Hm') as Str.
+  destruct (run_st0 ninp _ false _ _ _ Sem Str e0) as (z' & s' & E & C & D & _ & (Lz' & P) & I).
+  exists z', s'. split; [exact E|]. split; [exact C|]. split; [exact D|]. split; [lia|].
+  rewrite P, Lz.
+  rewrite (valN_inputs _ e0 ninp x I Ix), (valN_inputs _ e0 ninp y I Iy). reflexivity.
+Qed.
